@@ -15,6 +15,8 @@ package main
 //	                 c<k>h<d> byte d of the 12-byte header of checksum chunk k | c<k>d<d> byte d of its data |
 //	                 c<k>t<d> = end of chunk k minus d | c<k>p<permille of its data>
 //	                 (segmeta: the file is segmeta.json and positions are relative to the line of segment <seg>)
+//	                 b:<col>:<blk>:l<d> | b:<col>:<blk>:o<d>  (.bsu only) byte d of the length (4 bytes) / offset (8 bytes) field of
+//	                 column <col> in block <blk>
 //	                 s:<col>:a<n> | s:<col>:e<n>  (.sst only) byte n of / n bytes before the end of the statistics record of
 //	                 column <col> (the columns are written in map order, so absolute positions hit a random column)
 //
@@ -593,6 +595,10 @@ func sfPosOK(p string) bool {
 			return false
 		}
 		return digitsOnly(p[1:1+i]) && digitsOnly(p[2+i:]) && len(p) < 12
+	case 'b':
+		q := strings.Split(p, ":")
+		return len(q) == 4 && q[0] == "b" && q[1] != "" && len(q[1]) < 20 && digitsOnly(q[2]) && len(q[2]) < 3 && len(q[3]) == 2 &&
+			((q[3][0] == 'l' && q[3][1] >= '0' && q[3][1] <= '3') || (q[3][0] == 'o' && q[3][1] >= '0' && q[3][1] <= '7'))
 	case 's':
 		q := strings.Split(p, ":")
 		return len(q) == 3 && q[0] == "s" && q[1] != "" && len(q[1]) < 20 && len(q[2]) >= 2 && len(q[2]) < 8 && (q[2][0] == 'a' || q[2][0] == 'e') && digitsOnly(q[2][1:])
@@ -622,6 +628,32 @@ func sfSstEntry(b []byte, col string) (lo, hi int) {
 	return -1, -1
 }
 
+// the offset (8 bytes) and length (4 bytes) fields of one column in one block of a .bsu file: per block
+// <blkSumLen(4)> <blkNum(2)> <highTs(8)> <lowTs(8)> <recCount(2)> <numCols(2)>, then per column <len(2)> <name> <off(8)> <len(4)>
+// (the columns are written in map order, so absolute positions hit a random column)
+func sfBsuField(b []byte, col string, blk int) (offPos, lenPos int) {
+	off := 0
+	for off+26 <= len(b) {
+		blkNum := int(binary.LittleEndian.Uint16(b[off+4:]))
+		ncols := int(binary.LittleEndian.Uint16(b[off+24:]))
+		off += 26
+		for c := 0; c < ncols; c++ {
+			if off+2 > len(b) {
+				return -1, -1
+			}
+			nl := int(binary.LittleEndian.Uint16(b[off:]))
+			if off+2+nl+12 > len(b) {
+				return -1, -1
+			}
+			if blkNum == blk && string(b[off+2:off+2+nl]) == col {
+				return off + 2 + nl, off + 2 + nl + 8
+			}
+			off += 2 + nl + 12
+		}
+	}
+	return -1, -1
+}
+
 type sfChunk struct{ start, dataLen int }
 
 func sfChunks(b []byte) []sfChunk {
@@ -640,6 +672,18 @@ func sfChunks(b []byte) []sfChunk {
 
 // resolves a symbolic position inside b[lo:hi); -1 = not applicable to this file
 func sfResolve(pos string, b []byte, lo, hi int) int {
+	if pos[0] == 'b' {
+		q := strings.Split(pos, ":")
+		blk, _ := strconv.Atoi(q[2])
+		op, lp := sfBsuField(b, q[1], blk)
+		if op < 0 {
+			return -1
+		}
+		if q[3][0] == 'l' {
+			return lp + int(q[3][1]-'0')
+		}
+		return op + int(q[3][1]-'0')
+	}
 	if pos[0] == 's' {
 		q := strings.Split(pos, ":")
 		elo, ehi := sfSstEntry(b, q[1])
@@ -1330,6 +1374,7 @@ func genSegfault(r *rand.Rand, n int, tier string) []string {
 	for _, f := range []string{"bsu", "sst", "sfm", "segmeta"} {
 		add(f, "cut@a0", "cut@a1", "cut@a7", "cut@m250", "cut@m500", "cut@m900", "cut@e1", "cut@e2", "xor@a0=1", "xor@a0=128", "xor@a1=255", "xor@a2=4", "xor@a6=1", "xor@a10=32", "xor@m200=8", "xor@m400=1", "xor@m600=64", "xor@m800=2", "xor@e1=1", "xor@e2=16", "set@m500=0", "set@m100=255")
 	}
+	add("bsu", "xor@b:u:1:l3=128", "xor@b:timestamp:0:l3=64", "xor@b:s:1:l1=1", "xor@b:n:1:o0=1", "xor@b:s:0:o7=128")
 	add("sst", "xor@s:n:e16=1", "xor@s:n:e9=64", "xor@s:n:a2=1", "cut@s:n:a0", "xor@s:s:a2=3")
 	// the whole file gone (not for the metadata).  A missing file of a column that the segment's metadata lists is not a
 	// column the events lack: before patch c18-7 `s!="w00"` then held for every event of the segment (wrong-event-returned,
